@@ -87,6 +87,7 @@ type Obligation struct {
 	Model   string
 	Detail  string
 	Extra   []string // extra assumptions (known-finding exclusion)
+	PlainGoal string // the unskolemised goal, when the goal was skolemised
 	Inputs  map[string]string
 	SrcText string
 }
@@ -112,6 +113,7 @@ type FnExec struct {
 	refKeys  map[string]bool // field keys whose Int sort denotes a reference
 	allowed  map[string][]Term // per-write frame: refs that may be written, per heap key (from modifies)
 	allowedWhole map[string]bool
+	hintTerms    []Term // loop indices in scope of the goal evaluated last (instantiation points, see inst.go)
 	frameEpochs  map[int]bool // epochs opened by the havoc of a loop in a pure / perwrite function
 	topFrame *Frame
 	anchorHits map[string]int
@@ -313,8 +315,17 @@ func (fx *FnExec) oblige(st *State, class, label string, goal Term, pos token.Po
 		Goal:   And(st.pc, Not(Term{sg, SBool})).S,
 		ctx:    fx.ctx,
 	}
-	if len(sks) > 0 {
+	for _, h := range fx.hintTerms {
+		if len(h.S) < 200 {
+			sks = append(sks, [2]string{h.S, "Int"})
+		}
+	}
+	fx.hintTerms = nil
+	if len(sks) > 0 && !noSkolem {
 		o.Extra = append(o.Extra, fx.instances(st, sks, o.Prefix)...)
+	}
+	if sg != goal.S {
+		o.PlainGoal = And(st.pc, Not(goal)).S // the goal as written (quantifier kept): raced against the skolemised form
 	}
 	if pos.IsValid() {
 		p := fx.eng.prog.Fset.Position(pos)
@@ -333,7 +344,16 @@ func (fx *FnExec) wellFormed(st *State, v Term, t types.Type) {
 	switch u := t.Underlying().(type) {
 	case *types.Pointer, *types.Map, *types.Chan, *types.Signature, *types.Struct, *types.Array:
 		fx.assume(st, And(Ge(v, Int(0)), Le(v, st.wm)))
-		_ = u
+		if mt, ok := u.(*types.Map); ok && !strings.Contains(v.S, "|q!") && !strings.Contains(st.pc.S, "|q!") {
+			// type safety: a map object has one key and element type for its whole life
+			if _, tp1 := types.Unalias(mt.Key()).(*types.TypeParam); !tp1 {
+				if _, tp2 := types.Unalias(mt.Elem()).(*types.TypeParam); !tp2 {
+					f := fx.ctx.DeclFun("maptype", []Sort{SInt}, SInt)
+					fact := Implies(st.pc, Implies(Not(Eq(v, Int(0))), Eq(Term{"(" + f + " " + v.S + ")", SInt}, Int(int64(fx.eng.typeID(types.Unalias(t.Underlying())))))))
+					fx.ctx.RawOnce("maptype:"+fact.S, "(assert "+fact.S+")")
+				}
+			}
+		}
 	case *types.Slice:
 		fx.assume(st, And(Ge(SlBase(v), Int(0)), Le(SlBase(v), st.wm), Ge(SlOff(v), Int(0)), Ge(SlLen(v), Int(0)), Le(SlLen(v), SlCap(v)),
 			Implies(Eq(SlBase(v), Int(0)), Eq(SlCap(v), Int(0)))))
@@ -593,6 +613,9 @@ func analyzeLoops(fn *ssa.Function) *loopInfo {
 			for _, in := range fn.Blocks[bi].Instrs {
 				if _, ok := in.(*ssa.DebugRef); ok {
 					continue
+				}
+				if _, ok := in.(*ssa.Phi); ok {
+					continue // a phi carries the position of the variable's declaration, which can precede the loop
 				}
 				if p := in.Pos(); p.IsValid() && p < min {
 					min = p
@@ -921,6 +944,7 @@ func (fr *Frame) enterLoop(h *ssa.BasicBlock, ins []*State, preds []*ssa.BasicBl
 	if spec != nil {
 		for i, c := range spec.Inv {
 			env := fr.specEnv(pre, h, nil)
+			env.preSt = pre
 			g, err := env.evalGoal(c.Expr)
 			if err != nil {
 				fx.unsupported = append(fx.unsupported, fmt.Sprintf("loop %d invariant %q: %v", ord, c.Src, err))
@@ -1024,8 +1048,13 @@ func (fr *Frame) enterLoop(h *ssa.BasicBlock, ins []*State, preds []*ssa.BasicBl
 		}
 	}()
 	if spec != nil {
+		if loopPres[fr] == nil {
+			loopPres[fr] = map[int]*State{}
+		}
+		loopPres[fr][h.Index] = pre.clone()
 		for _, c := range spec.Inv {
 			env := fr.specEnv(st, h, nil)
+			env.preSt = loopPres[fr][h.Index]
 			g, err := env.evalBool(c.Expr)
 			if err != nil {
 				continue
@@ -1049,6 +1078,7 @@ func (fr *Frame) enterLoop(h *ssa.BasicBlock, ins []*State, preds []*ssa.BasicBl
 var loopDecs = map[*Frame]map[int]Term{}
 var loopGhosts = map[*Frame]map[int]map[string]Term{}
 var loopHdrs = map[*Frame]map[int]*State{}
+var loopPres = map[*Frame]map[int]*State{}
 
 func (fr *Frame) loopDec(h int, m Term) {
 	if loopDecs[fr] == nil {
@@ -1116,6 +1146,7 @@ func (fr *Frame) backEdge(u, h *ssa.BasicBlock, st *State) {
 	work := st.clone()
 	for i, c := range spec.Inv {
 		env := fr.specEnv(work, h, nil)
+		env.preSt = loopPres[fr][h.Index]
 		g, err := env.evalGoal(c.Expr)
 		if err != nil {
 			fx.unsupported = append(fx.unsupported, fmt.Sprintf("loop %d invariant %q at back edge: %v", ord, c.Src, err))
